@@ -183,14 +183,32 @@ theorem C05_gas_bounded_partial (env : Env) (ov : Overlay σ) (tx : Tx) (g : UIn
 /-! ## Tie of the loop-free helpers to the source: `Gen/Gas.lean` is regenerated from tx_handler.go / neovm/config.go
 on every run (harness/cmd/factgen/facts_gas.go); these theorems are re-checked against it -/
 
-/-- the regenerated `tuneGasFeeByHeight` never reaches its division guard and is the model's `tune` -/
+/-- the regenerated `tuneGasFeeByHeight` (a decision list: nested ifs, guard clauses with early returns and inlined
+`min` helpers all give such a list) never reaches a division guard and is the model's `tune` -/
 theorem C05_tune_generated (t : Bool) (g r c : UInt64) :
     OntVerif.Gen.Gas.tuneGasFeeByHeight t g r c = some (tune t g r c) := by
   unfold OntVerif.Gen.Gas.tuneGasFeeByHeight tune
-  by_cases ht : t = true <;> by_cases hr : r = 0 <;> simp [ht, hr, maxU64] <;> (repeat' split) <;> simp_all
+  cases t <;> by_cases hr : r = 0 <;> simp [hr, maxU64] <;> (repeat' split) <;> simp_all
 
 theorem C05_calcGasByCodeLen_generated (l : Nat) (g : UInt64) :
-    OntVerif.Gen.Gas.calcGasByCodeLen l g = calcGasByCodeLen l g := rfl
+    OntVerif.Gen.Gas.calcGasByCodeLen l g = calcGasByCodeLen l g := by
+  first | rfl | exact UInt64.mul_comm _ _
+
+/-- the fee effects the model gives `HandleInvokeTransaction`, in source order: three pre-checks charging the balance /
+the balance / `GasLimit*GasPrice`; VM error: tune against the balance BEFORE the execution, `costInvalidGas`; balance
+after the execution below the cost: the same; success: tune against the balance AFTER the execution, `chargeCostGas`.
+The rounding unit is `GasPrice*MIN_TRANSACTION_GAS` at all three sites. -/
+def modelFeeEffects : List String := [
+  "costInvalidGas(old)", "costInvalidGas(old)", "costInvalidGas(mul(Tx.GasLimit,Tx.GasPrice))",
+  "tune(round=mul(Tx.GasPrice,neovm.MIN_TRANSACTION_GAS),balance=old)", "costInvalidGas(tuned)",
+  "tune(round=mul(Tx.GasPrice,neovm.MIN_TRANSACTION_GAS),balance=old)", "costInvalidGas(tuned)",
+  "tune(round=mul(Tx.GasPrice,neovm.MIN_TRANSACTION_GAS),balance=new)", "chargeCostGas(tuned)"]
+
+/-- the regenerated call structure (located by role, followed into same-package helpers) is the model's, as shipped or
+with the gas-limit-underflow guard (one more pre-check charging the balance) -/
+theorem C05_fee_effects_generated :
+    OntVerif.Gen.Gas.feeEffects = modelFeeEffects ∨
+    OntVerif.Gen.Gas.feeEffects = modelFeeEffects.take 3 ++ ["costInvalidGas(old)"] ++ modelFeeEffects.drop 3 := by decide
 
 theorem C05_constants_generated :
     OntVerif.Gen.Gas.minTransactionGas = minTxGas ∧ OntVerif.Gen.Gas.perUnitCodeLen = perUnitCodeLen ∧
